@@ -947,12 +947,23 @@ fn gen_frame(rng: &mut Rng) -> Vec<u8> {
 }
 
 fn search_recv(seed: u64, budget: usize, cancel: bool) -> Option<Value> {
+    std::panic::set_hook(Box::new(|_| {}));
     let mut rng = Rng(seed.wrapping_mul(0x9E3779B97F4A7C15) | 1);
     for _ in 0..budget {
         let nframes = 1 + rng.below(4);
         let mut wire = Vec::new();
         for _ in 0..nframes {
             wire.extend(gen_frame(&mut rng));
+            wire.push(0);
+        }
+        // boundary case: now and then the whole batch ends exactly where the 256-byte-stepped read buffer ends (the last
+        // frame is padded so that the wire is a multiple of 256 bytes long), delivered whole or in pieces
+        if rng.below(4) == 0 {
+            let overhead = br#"{"method":"a.S","parameters":{"s":""}}"#.len() + 1;
+            let mut target = ((wire.len() + overhead) / 256 + 1) * 256;
+            if rng.below(3) == 0 { target += 256; }
+            let pad = target - wire.len() - overhead;
+            wire.extend_from_slice(format!(r#"{{"method":"a.S","parameters":{{"s":"{}"}}}}"#, "x".repeat(pad)).as_bytes());
             wire.push(0);
         }
         let cuts: Vec<usize> = match rng.below(4) {
@@ -962,7 +973,11 @@ fn search_recv(seed: u64, budget: usize, cancel: bool) -> Option<Value> {
             _ => vec![1 + rng.below(wire.len())],
         };
         let pending: Vec<usize> = if cancel { (0..rng.below(6)).map(|_| rng.below(12)).collect() } else { vec![] };
-        let (exp, got) = run_recv(&wire, &cuts, &pending);
+        let (w2, c2, p2) = (wire.clone(), cuts.clone(), pending.clone());
+        let (exp, got) = match std::panic::catch_unwind(move || run_recv(&w2, &c2, &p2)) {
+            Ok(x) => x,
+            Err(_) => (vec!["(no panic)".to_string()], vec!["PANIC inside receive_call".to_string()]),
+        };
         if exp != got {
             return Some(json!({"kind":"recv","wire_hex":hex(&wire),"wire_shown":show(&wire),"cuts":cuts,"pending_reads":pending,
                                "expected":exp,"got":got}));
@@ -1011,7 +1026,11 @@ fn main() {
             let wire = unhex(w["wire_hex"].as_str().unwrap());
             let cuts: Vec<usize> = w["cuts"].as_array().unwrap().iter().map(|x| x.as_u64().unwrap() as usize).collect();
             let pend: Vec<usize> = w["pending_reads"].as_array().map(|a| a.iter().map(|x| x.as_u64().unwrap() as usize).collect()).unwrap_or_default();
-            let (exp, got) = run_recv(&wire, &cuts, &pend);
+            let (w2, c2, p2) = (wire.clone(), cuts.clone(), pend.clone());
+            let (exp, got) = match std::panic::catch_unwind(move || run_recv(&w2, &c2, &p2)) {
+                Ok(x) => x,
+                Err(_) => (vec!["(no panic)".to_string()], vec!["PANIC inside receive_call".to_string()]),
+            };
             println!("wire     = {}", show(&wire));
             println!("expected = {exp:?}");
             println!("got      = {got:?}");
